@@ -46,7 +46,7 @@ class Contract:
                  free=None, assumes=(), skip_body=False, replay=None, self_fields=None, abstract_ok=(),
                  entry_ghost=(), exit_ghost=(), consts=None, witness=None, defaults=None,
                  tags=None, global_ghosts=(), result_fn=None, options=None,
-                 quiet_requires=(), ghost_returns=None):
+                 quiet_requires=(), ghost_returns=None, fields=None):
         self.target = target              # "mokapot.utils.create_chunks" or "mokapot.model.Model.fit"
         self.params = dict(params or {})  # name -> type string (in signature order)
         self.requires = list(requires)
@@ -88,3 +88,5 @@ class Contract:
         self.witness = dict(witness or {})   # ensures text -> {bound var: witness expression} (proof hint)
         self.defaults = dict(defaults or {})  # param -> default expression text
         self.tags = dict(tags or {})          # name -> class names for which isinstance(name, cls) holds
+        # read-only attributes of abstract objects: "Type.attr" -> type string (a function of the object)
+        self.fields = dict(fields or {})
